@@ -43,6 +43,10 @@ int run_test_suite(TestSuite *suite, TestReporter *reporter)
     }
 
     setup_reporting(reporter);
+    if (reporter->ipc < 0)
+    {
+        die("could not set up the channel for test results\n");
+    }
     run_every_test(suite, reporter);
     success = (reporter->total_failures == 0) && (reporter->total_exceptions == 0);
     return success ? EXIT_SUCCESS : EXIT_FAILURE;
@@ -57,6 +61,10 @@ int run_single_test(TestSuite *suite, const char *name, TestReporter *reporter)
     }
 
     setup_reporting(reporter);
+    if (reporter->ipc < 0)
+    {
+        die("could not set up the channel for test results\n");
+    }
     run_named_test(suite, name, reporter);
     success = (reporter->total_failures == 0);
     return success ? EXIT_SUCCESS : EXIT_FAILURE;
